@@ -29,7 +29,7 @@ def install(ctx):
 def cases(ctx):
     rng = ctx.rng
     for i in range(ctx.n(1400, 5000)):
-        mode = str(rng.choice(["perm", "gauss", "separated", "inverted", "ties", "touching", "ulp", "tiny", "uint", "int8wide", "mixed", "huge", "subnormal", "negzero", "clustered", "clustered"]))
+        mode = str(rng.choice(["perm", "gauss", "separated", "inverted", "ties", "touching", "ulp", "tiny", "uint", "int8wide", "mixed", "huge", "subnormal", "negzero", "clustered", "clustered", "manyeasy", "manyeasy", "manyeasy"]))
         npos = int(rng.integers(1, 26))
         nneg = int(rng.integers(1, 26))
         if mode == "tiny":
@@ -37,6 +37,9 @@ def cases(ctx):
             mode2 = "perm"
         else:
             mode2 = mode
+        if mode2 == "manyeasy":
+            npos, nneg = int(rng.integers(1, 12)), int(rng.integers(1, 12))
+            mode2 = str(rng.choice(["perm", "gauss", "inverted", "inverted"]))
         if mode2 == "perm":
             allv = rng.permutation(npos + nneg).astype(float)
             pos, neg = allv[:npos], allv[npos:]
@@ -62,6 +65,10 @@ def cases(ctx):
             high = np.concatenate([[hi], hi + 1.0 + rng.uniform(0, 1, k2)])
             pos, neg = (high, low) if rng.random() < 0.5 else (low, high)
         ep, en = gen.easy(rng)
+        if mode == "manyeasy":  # a handful of hard scores beside up to billions of easy ones: one sample is 1e-10 of the rate scale
+            ep, en = (int(x) for x in rng.choice([0, 10 ** 8, 10 ** 9, 3 * 10 ** 9, 10 ** 10, 10 ** 11, 10 ** 12], 2))
+            if ep == 0 and en == 0:
+                en = 3 * 10 ** 9
         sc, ec = gen.cfg(rng)
         a = float(rng.choice([0.5, 2.0, 1.0, float(rng.uniform(0.1, 10))]))
         b = float(rng.choice([0.0, 1.0, float(rng.normal(0, 5))]))
